@@ -21,7 +21,8 @@ ProcDecl == {"", "proc f() is skip", "proc f(val a) is a := a", "func f(val a) i
              "proc a() is skip", "func f() is skip", "func f(val a, val a) is return a", "proc f(array a) is a[0] := f", "func b(val x) is return f(x)",
              "func f(val x) is return f(x - 1)", "proc f() is skip\nfunc f(array v) is return 1", "func f(val a) is return a\nproc f() is f(1)",
              "proc main() is skip", "proc f(val b) is b(1)\nproc b() is skip", "proc f(val a) is a()", "proc f(val x) is val k = 1; k := x + 1",
-             "func f(val x) is val k = x; return k"}
+             "func f(val x) is val k = x; return k", "func f(val x) is val k = 7; return k[x]", "proc f(val x) is val k = 7; k[x] := a", "proc f(array k) is val a = 3; a[0] := k[a]",
+             "func f(val x) is val k = 2; return k(x)", "proc f(val x) is var k; k[x] := k"}
 \* statement shapes; X, Y, Z are name slots
 Shapes == {"X := Y", "X[Y] := Z", "X(Y)", "X := Y(Z)", "X := Y[Z]", "return X", "X()", "X := Y + Z(X, Y)", "{ }", "if X then Y := 1 else skip",
            "while X do Y()", "X := \"\"", "0(X(1) = 2)", "X := -Y", "X(Y[Z])", "X(\"s\", Y)", "X := Y(Z())", "2(X)", "X[Y(Z)] := X[Y(Z)]", "1(X, Y, Z)",
